@@ -229,9 +229,10 @@ namespace c19
     return Graph(Index(rows.size()), ni, Index(idx.size()), ptr.data(), idx.data());
   }
 
-  // calls f(adjactor object) for the operand o; `all` = every kind, otherwise the kinds supported in chains of three
-  template<class F>
-  vj::Value with_operand(const vj::Value& o, bool all, F&& f)
+  // calls f(adjactor object) for the operand o; all = every kind, otherwise the kinds supported in chains of three
+  // (compile time: every combination of kinds is a separate instantiation of the whole replay)
+  template<bool all, class F>
+  vj::Value with_operand(const vj::Value& o, F&& f)
   {
     const std::string k = o["k"].as_str();
     const Index nd = Index(o["nd"].as_int()), ni = Index(o["ni"].as_int());
@@ -244,7 +245,7 @@ namespace c19
       return f(x);
     }
     if(k == "struct1") { Index sl[1] = {a.at(0)}; Struct1Adj x(sl); return f(x); }
-    if(all)
+    if constexpr(all)
     {
       if(k == "dyn")
       {
